@@ -308,13 +308,9 @@ func vh_C19_Descriptors2() {
 	c19RunDescriptors(n, []int{0, 1}, []bool{vfChoose("asc1", 2) == 1, vfChoose("asc2", 2) == 1}, vfChoose("byfield", 2) == 1)
 }
 
-// thorough only: three descriptors mixing Ordered and String keys
+// three descriptors mixing Ordered and String keys
 func vh_C19_Descriptors3() {
-	if vfTier() == 0 {
-		vfReach("end")
-		return
-	}
-	n := vfRange("n", 2, 3)
+	n := vfRange("n", 2, 2+vfTier()) // quick: two records already separate "second key ignored" from "third key ignored"
 	c19RunDescriptors(n, []int{2, 0, 1}, []bool{vfChoose("asc1", 2) == 1, vfChoose("asc2", 2) == 1, vfChoose("asc3", 2) == 1}, false)
 }
 
